@@ -280,7 +280,7 @@ Proof.
   cbn [with_file]. rewrite (statm_roundtrip pagesize r Hr).
   assert (E : spec_meminfo pagesize r = firstn 7 (spec_full pagesize r ms)).
   { unfold spec_full. destruct (spec_sums ms) as [[a b] c]. reflexivity. }
-  rewrite E. apply hist_spec; auto; [|discriminate].
+  rewrite E. apply hist_spec; [|exact Hok|exact Hk|discriminate].
   unfold spec_full. destruct (spec_sums ms) as [[a b] c]. reflexivity.
 Qed.
 
